@@ -1,12 +1,13 @@
 #!/bin/sh
 # Sensitivity run: every kept seeded change under /verif/seeded/<PROP>-<k>/ must make its
 # property's quick check exit 1. Writes seeded/RESULTS.txt.
-cd /verif
+cd "$(dirname "$0")/.." || exit 9
+HERE=$(pwd)
 OUT=seeded/RESULTS.txt
 : > $OUT
 for d in seeded/*/; do
   id=$(basename "$d"); prop=${id%%-*}
   [ -f "$d/patch.diff" ] || continue
-  line=$(tools/try_mutant.sh "$prop" "/verif/$d" 2>&1 | head -1)
+  line=$(tools/try_mutant.sh "$prop" "$HERE/$d" 2>&1 | head -1)
   echo "$id: $line" | tee -a $OUT
 done
